@@ -48,7 +48,9 @@ def sir_scenarios(seed, n_random, sizes=(3, 4), exhaustive2=True, dvals=(0, 1, 2
         dur = [rng.choice(upool) for _ in range(n)]
         tmin = rng.choice([0, 0, 3])
         tmax = rng.choice([INF, INF, tmin + 2, tmin + 4])
-        out.append({"n": n, "adj": adj, "init": init, "delay": delay, "dur": dur, "tmin": tmin, "tmax": tmax, "directed": directed})
+        out.append({"n": n, "adj": adj, "init": init, "delay": delay, "dur": dur, "tmin": tmin, "tmax": tmax, "directed": directed,
+                    # the real calls are made with all absolute times moved by -shift (negative start times)
+                    "shift": rng.choice([0, 0, 0, 7, 1000])})
     return out
 
 
@@ -63,10 +65,16 @@ def sis_scenarios(seed, n_random, sizes=(2, 3, 4), unsorted_frac=0.0):
         n = rng.choice(sizes)
         p = rng.choice([0.5, 0.8, 1.0])
         adj = [[0] * n for _ in range(n)]
+        directed = 1 if rng.random() < 0.2 else 0
         for u in range(n):
             for v in range(u + 1, n):
                 if rng.random() < p:
                     adj[u][v] = adj[v][u] = 1
+                    if directed and rng.random() < 0.5:
+                        if rng.random() < 0.5:
+                            adj[u][v] = 0
+                        else:
+                            adj[v][u] = 0
         init = ["S"] * n
         for u in rng.sample(range(n), rng.choice([1, 1, 2])):
             init[u] = "I"
@@ -102,7 +110,7 @@ def sis_scenarios(seed, n_random, sizes=(2, 3, 4), unsorted_frac=0.0):
                     if delay[u][v][k] != sorted(delay[u][v][k]):
                         srt = 0
         out.append({"n": n, "adj": adj, "init": init, "k": K, "dur": dur, "delay": delay,
-                    "tmin": tmin, "tmax": tmax, "sorted": srt, "late": 1 if late else 0,
+                    "tmin": tmin, "tmax": tmax, "sorted": srt, "late": 1 if late else 0, "directed": directed,
                     # the real call is made with all times shifted by -shift (negative start times); the semantics is shift invariant
                     "shift": rng.choice([0, 0, 700, 5000])})
     return out
